@@ -29,7 +29,8 @@ func argApply(c argcase) string {
 	switch c.Op {
 	case "SetRegion":
 		e := r.SetRegion(a[0], a[1], a[2], a[3])
-		ok := a[0] >= 0 && a[1] >= 0 && a[2] >= 1 && a[3] >= 1 && a[0]+a[2] <= m.w && a[1]+a[3] <= m.h
+		// written without sums: the arguments may be near the end of the int range
+		ok := a[0] >= 0 && a[1] >= 0 && a[2] >= 1 && a[3] >= 1 && a[0] <= m.w && a[2] <= m.w-a[0] && a[1] <= m.h && a[3] <= m.h-a[1]
 		if ok {
 			for y := a[1]; y < a[1]+a[3]; y++ {
 				for x := a[0]; x < a[0]+a[2]; x++ {
@@ -142,7 +143,8 @@ func argOne(l *mc.Local, c argcase) {
 
 func runArgProducts() {
 	const h = 3
-	chk.Range("BitMatrix argument products: for every width 1..130 (height 3, contents empty and striped): SetRegion for EVERY (left,width) with left+width <= w x (top,height) in {(0,3),(1,1),(2,1),(0,2)}, Set/Unset/Flip at EVERY (x,y), SetRow/GetRow for every row pair, SetRow from scratch rows 1..w+3 bits LONGER than the width (all bits beyond the width set); out-of-range regions (negative origin, zero/negative size, one past the edge) refused without effect", 130,
+	const maxInt = int(^uint(0) >> 1)
+	chk.Range("BitMatrix argument products: for every width 1..130 (height 3, contents empty and striped): SetRegion for EVERY (left,width) with left+width <= w x (top,height) in {(0,3),(1,1),(2,1),(0,2)}, Set/Unset/Flip at EVERY (x,y), SetRow/GetRow for every row pair, SetRow from scratch rows 1..w+3 bits LONGER than the width (all bits beyond the width set); out-of-range regions (negative origin, zero/negative size, one past the edge, origin + size wrapping around the int range, 2^32 look-alikes) refused without effect", 130,
 		func(i int) string { return fmt.Sprint("w=", i+1) },
 		func(l *mc.Local, i int) {
 			w := i + 1
@@ -155,7 +157,10 @@ func runArgProducts() {
 						}
 					}
 				}
-				for _, bad := range [][]int{{-1, 0, 1, 1}, {0, -1, 1, 1}, {0, 0, 0, 1}, {0, 0, 1, 0}, {0, 0, -1, 1}, {0, 0, w + 1, 1}, {1, 0, w, 1}, {0, 0, 1, h + 1}, {0, 1, 1, h}, {w, 0, 1, 1}} {
+				for _, bad := range [][]int{{-1, 0, 1, 1}, {0, -1, 1, 1}, {0, 0, 0, 1}, {0, 0, 1, 0}, {0, 0, -1, 1}, {0, 0, w + 1, 1}, {1, 0, w, 1}, {0, 0, 1, h + 1}, {0, 1, 1, h}, {w, 0, 1, 1},
+					// origin + size beyond the int range, and arguments that look in-range once cut to 32 bits
+					{maxInt, 0, 1, 1}, {0, maxInt, 1, 1}, {1, 0, maxInt, 1}, {0, 1, 1, maxInt}, {maxInt - w + 1, 0, w, 1}, {maxInt, maxInt, maxInt, maxInt},
+					{maxInt/2 + 1, 0, maxInt/2 + 1, 1}, {0, maxInt/2 + 1, 1, maxInt/2 + 1}, {1 << 32, 0, 1, 1}, {0, 1 << 32, 1, 1}, {0, 0, 1<<32 + w, 1}, {0, 0, 1, 1<<32 + 1}} {
 					argOne(l, argcase{"args", w, h, init, "SetRegion", bad})
 				}
 				for y := 0; y < h; y++ {
